@@ -718,8 +718,12 @@ func c12PingRun(c c12PingCase) Outcome {
 	if ok1 && err == nil {
 		return fail("silence-success", "%s: the request succeeded although the server never answered it", desc)
 	}
+	if !ok1 && got <= base+2 {
+		// a time bound alone is not evidence; a wedged client is caught by the deadlock evidence of the other lanes
+		return Outcome{Inconcl: "the request had not resolved when the wait ended although the client had stopped pinging (machine too slow?)"}
+	}
 	// one PING may already be on its way when the silence begins, in either run
-	if got > base+2 || !ok1 {
+	if got > base+2 {
 		return fail("silence-liveness", "%s: the client sent %d unanswered PINGs (resolved=%v) where a fresh connection gives up after %d: its liveness bound depends on the connection's history", desc, got, ok1, base)
 	}
 	return Outcome{NonTrivial: c.ServerPings > 0 || c.Earlier > 0, Classes: []string{fmt.Sprintf("unanswered=%d", got)}}
